@@ -28,6 +28,18 @@ def rbind(n):          # h(n) = n == 0 ? return 0 : return n >>= λx. h(n-1)
     return (f"{enc(n)} (ㄱ ㄱㅅㅎㄴ) ((ㄱㅇㄱ ㄱㅅㅎㄴ) ((ㄱㅇㄴ ㄴㄱ ㄷㅎㄷ) ㄴㅇ ㅎㄴ ㅎ) ㄱㄹㅎㄷ) {COND} ㅎㄷ ㅎ ㅎㄴ", "IO(0)")
 
 
+def viahelper(n):      # pick = λ c a b. c(a, b);  f(n) = pick(n == 0, 0, f(n-1))   (tail call delivered through argument references)
+    return (f"{enc(n)} ({COND} ㄱ ((ㄱㅇㄱ ㄴㄱ ㄷㅎㄷ) ㄱㅇ ㅎㄴ) (ㄴㅇㄱ ㄷㅇㄱ ㄱㅇㄱ ㅎㄷ ㅎ) ㅎㄹ ㅎ) ㅎㄴ", "0")
+
+
+def viaid(n):          # same = λx. x;  f(n) = n == 0 ? 0 : same(f(n-1))
+    return (f"{enc(n)} (ㄱ (((ㄱㅇㄱ ㄴㄱ ㄷㅎㄷ) ㄱㅇ ㅎㄴ) (ㄱㅇㄱ ㅎ) ㅎㄴ) {COND} ㅎㄷ ㅎ) ㅎㄴ", "0")
+
+
+def viathunk(n):       # f(n, k) = n == 0 ? k : f(n-1, k)   with k an unevaluated call handed along and returned at the end
+    return (f"{enc(n)} (ㄷ ㄹ ㄷㅎㄷ) ((ㄴㅇㄱ) ((ㄱㅇㄱ ㄴㄱ ㄷㅎㄷ) (ㄴㅇㄱ) ㄱㅇ ㅎㄷ) {COND} ㅎㄷ ㅎ) ㅎㄷ", "5")
+
+
 def nontail(n):        # s(n) = n == 0 ? 0 : n + s(n-1)   (frames grow with n)
     return (f"{enc(n)} ㄱ (ㄱㅇㄱ ((ㄱㅇㄱ ㄴㄱ ㄷㅎㄷ) ㄱㅇ ㅎㄴ) ㄷㅎㄷ) {COND} ㅎㄷ ㅎ ㅎㄴ", str(n * (n + 1) // 2))
 
@@ -40,7 +52,8 @@ def nestfmt(n):        # printing a list nested n deep (KNOWN FINDING for large 
     return (f"{enc(n)} ㅁㄹㅎㄱ ((ㄱㅇㄱ ㄴㄱ ㄷㅎㄷ) ㄱㅇ ㅎㄴ ㅁㄹㅎㄴ) {COND} ㅎㄷ ㅎ ㅎㄴ", "[" * (n + 1) + "]" * (n + 1))
 
 
-TAIL = {'countdown': countdown, 'accum': accum, 'mutual': mutual, 'viabool': viabool, 'rbind': rbind}
+TAIL = {'countdown': countdown, 'accum': accum, 'mutual': mutual, 'viabool': viabool, 'rbind': rbind,
+        'viahelper': viahelper, 'viaid': viaid, 'viathunk': viathunk}
 
 
 @monitor('c05_value')
@@ -88,7 +101,7 @@ SPEC = {
     'cases': cases,
     'relevant': relevant,
     'stream': 'C05 loop ladder',
-    'rule': 'loop shapes self / with accumulator / mutual / via Boolean selection / inside a ㄱㄹ chain × iteration counts '
+    'rule': 'loop shapes self / with accumulator / mutual / via Boolean selection / inside a ㄱㄹ chain / tail call delivered through a helper function, an identity wrapper, or a thunk handed along × iteration counts '
             '10^0…10^4 (quick) …10^6 (thorough) (+ a random offset): must complete with the arithmetically known value, '
             'never a host RecursionError; non-tail recursion at depths straddling the frame limit: implementation and '
             'model must agree on every depth whether the explicit limit is reported; left-nested bind / deep printing '
